@@ -213,6 +213,9 @@ func NewPool(kt string, code uint, variant string) *Pool {
 	upd("U20", "u2", c("u0"), svc("u20"), nil, nil, "legit", "")
 	upd("U00", "u0", c("u0"), svc("u00"), nil, nil, "legit", "")
 	upd("V01", "v0", c("v1"), svc("v01"), nil, nil, "legit", "")
+	// an update after the recover R01 whose next update commitment is the (already consumed) recovery commitment of r0: the update
+	// chain and the recovery chain are separate, the update is legitimate
+	upd("V0>r0", "v0", c("r0"), svc("v0r0"), nil, nil, "legit", "")
 	upd("V0b1", "v0b", c("v1"), svc("v0b1"), nil, nil, "legit", "")
 	upd("W01", "w0", c("v1"), svc("w01"), nil, nil, "legit", "")
 
